@@ -262,3 +262,26 @@ CONTRACTS += [
                        'p0.text == source[p0.start - bias:p0.start - bias + p0.length]')],
              note='every start, 0 included (bias is the start of the compound candidate)'),
 ]
+
+# ---- C12 at the model level: a model with two extractor/parser pairs (the Chinese / Japanese unit models chain their own pair
+#      and the English one) never returns two entities whose ranges share a character
+UM = NWU + 'number_with_unit/models.py::'
+_UMPR = lambda k: Rec(RT + 'parser.py::ParseResult', dict(start=Expr(f'ps{k}'), length=Expr(f'pl{k}'), text=Str(), type=Str(), data=Const(None),
+                                                         meta_data=Const(None), value=Str(), resolution_str=Str()))
+_UMPAIR = lambda k: Rec(UM + 'ExtractorParserModel', dict(extractor=Config(funcs=dict(extract=Returns(ListOf(_ER(), 1)))),
+                                                        parser=Config(funcs=dict(parse=Returns(_UMPR(k))))))
+CONTRACTS += [
+    Contract('c12.env.preprocess', RT + 'utilities.py::QueryProcessor.preprocess', ['C12'], returns=Str(),
+             params=dict(source=Opaque(), case_sensitive=Opaque(), recode=Opaque()), ensures=[],
+             assumed='normalisation of the query has its own contracts (c01.preprocess*); its result is only handed to the extractors here'),
+    Contract('c12.unit_model.parse.two_pairs', UM + 'AbstractNumberWithUnitModel.parse', ['C12'], modular=['id:c12.env.preprocess'],
+             params=dict(ps0=Int(0, 200), pl0=Int(1, 50), ps1=Int(0, 200), pl1=Int(1, 50),
+                         self=Rec(UM + 'CurrencyModel', dict(extractor_parser=TupleOf(_UMPAIR(0), _UMPAIR(1)))), query=Str()),
+             ensures=[('entities-of-one-call-never-share-a-character',
+                       'forall(lambda i: forall(lambda j: result[i].end < result[j].start or result[j].end < result[i].start, i + 1, len(result)), '
+                       '0, len(result))'),
+                      ('the-first-pair-is-always-reported', 'len(result) >= 1 and result[0].start == ps0 and result[0].end == ps0 + pl0 - 1'),
+                      ('a-disjoint-second-entity-is-kept',
+                       'implies(ps1 + pl1 <= ps0 or ps0 + pl0 <= ps1, len(result) == 2 and result[1].start == ps1 and result[1].end == ps1 + pl1 - 1)')],
+             note='one entity per pair, arbitrary spans; extractors and parsers abstracted by their contracts'),
+]
